@@ -151,6 +151,14 @@ func Tier() int      { return cur.tier }
 func Seed() int64    { return cur.seed }
 func Symbolic() bool { return false }
 
+var resetHooks []func()
+
+// OnReset registers a function that restores harness-package globals to
+// their initial values. The executor runs every path in a fresh interpreter
+// (globals are re-initialised); the native driver calls the hooks before each
+// replayed case to get the same effect.
+func OnReset(f func()) { resetHooks = append(resetHooks, f) }
+
 // ---- native driver ---------------------------------------------------------
 
 type Case struct {
@@ -172,6 +180,9 @@ type Outcome struct {
 
 func runOne(c Case, f func()) (out Outcome) {
 	cur = &state{val: map[string]*big.Int{}, tier: c.Tier, seed: c.Seed}
+	for _, h := range resetHooks {
+		h()
+	}
 	for k, v := range c.Valuation {
 		b, ok := new(big.Int).SetString(strings.TrimPrefix(v, "0x"), 16)
 		if ok {
